@@ -30,10 +30,13 @@ PROPERTY = "C15"
 
 sys.path.insert(0, os.path.join(vlib.VERIF, "translate"))
 import t_omp  # noqa: E402
+import t_omp_ast  # noqa: E402
 
 TRUSTED = [
     "translator translate/t_omp.py (source-level parser, not a C++ front end): trusted to report the accesses "
-    "of the loop bodies; unknown constructs become AOpaque (rejected); self-test mutates the source",
+    "of the loop bodies; unknown constructs become AOpaque (rejected); self-test mutates the source; cross-checked on "
+    "every run against clang's JSON AST (translate/t_omp_ast.py: regions per function, thread-private variables, "
+    "stores to shared variables with their index forms, critical sections, induction variables)",
     "meaning of the recognised C++ forms: Eigen operator()(i,j) touches exactly entry (i,j), row(e)/col(e) that "
     "row/column; the const-method table; callbacks (distance/kernel) are reentrant and do not write shared state",
     "the tree model of a loop body is not derived from the C++ text: the theorem covers EVERY body whose shared "
@@ -83,7 +86,8 @@ def coqc_build(ctx, gdir, name, timeout=600):
 
 GEN_OBLIGATIONS = """From Coq Require Import ZArith List String Bool.
 Import ListNotations.
-From TK Require Import Par_Model Par_Spec Par_Region_Model Par_Region_Proof Par_Fill_Model Par_Row_Model.
+From TK Require Import Par_Model Par_Spec Par_Region_Model Par_Region_Proof Par_Fill_Model Par_Row_Model
+  Par_Weight_Model.
 From CUR Require Import OmpCur.
 Local Open Scope string_scope.
 Definition is_sym_region (r : region) : bool :=
@@ -100,11 +104,16 @@ Lemma gen_row_shape :
                    existsb (fun p => match p_class p with PInit => true | _ => false end) (r_private r) = true)
          (filter (fun r => contains "triangulate" (r_name r)) regions).
 Proof. vm_compute. repeat constructor. Qed.
+Lemma gen_weight_shapes :
+  Forall (fun r => same_shapes (r_shared r) (crit_accs "") = true)
+         (filter (fun r => contains "_weight_matrix" (r_name r)) regions).
+Proof. vm_compute. repeat constructor. Qed.
 Lemma gen_hlle_is_expected :
-  gen_hlle_found = true /\\ gen_hlle_step = hlle_step_expected /\\ gen_hlle_col = hlle_col_expected.
-Proof. repeat split; reflexivity. Qed.
+  gen_hlle_found = true /\\ hlin gen_hlle_step = hlin hlle_step_expected /\\
+  hlin gen_hlle_col = hlin hlle_col_expected.
+Proof. repeat split; vm_compute; reflexivity. Qed.
 Lemma gen_hlle_cover : forall d, hlle_cols_ok gen_hlle_step gen_hlle_col d = true.
-Proof. destruct gen_hlle_is_expected as (_ & -> & ->). exact hlle_cols_cover. Qed.
+Proof. destruct gen_hlle_is_expected as (_ & Hs & Hc). exact (hlle_cols_cover_lin _ _ Hs Hc). Qed.
 """
 
 
@@ -624,6 +633,16 @@ def run(ctx):
             built["err"] = ex
     th = threading.Thread(target=_build)
     th.start()
+    # independent reading of the regions through clang's AST, compared with the translator's (20 s, own thread)
+    xcheck = {}
+
+    def _xcheck():
+        try:
+            xcheck["diff"] = t_omp_ast.compare(ctx.repo)
+        except Exception as ex:
+            xcheck["skipped"] = repr(ex)[:300]
+    th2 = threading.Thread(target=_xcheck)
+    th2.start()
     coq = ctx.coq()
     stats["t_coq_s"] = round(ctx.elapsed(), 1)
     tr, text, err = regenerate(ctx)
@@ -648,6 +667,12 @@ def run(ctx):
             table_ok = False
     combos = COMBOS_QUICK if quick else COMBOS_THOROUGH
     th.join()
+    th2.join()
+    if xcheck.get("diff"):
+        ctx.unshown("the source-level translator and clang's AST read the OpenMP regions differently: "
+                    + " || ".join(xcheck["diff"])[:900])
+    stats["clang_ast_cross_check"] = ("agree" if xcheck.get("diff") == [] else
+                                      ("skipped: " + xcheck["skipped"]) if "skipped" in xcheck else "DISAGREE")
     if "err" in built:
         raise built["err"]
     exe = built["exe"]
